@@ -110,6 +110,12 @@ for _name, (_op, _content, _custom, _pps) in OPS.items():
 
         def build(self, F):
             sc = mk_scenario(F, self.content)
+            if "network" in self.content:
+                # a lanelet built with the constructor's defaults (no lanelet type, no markings, no adjacencies)
+                from commonroad.scenario.lanelet import Lanelet
+
+                cv = lambda y: (np.array([[30.0, y + 1.0], [40.0, y + 1.25]]), np.array([[30.0, y + 0.5], [40.0, y + 0.75]]), np.array([[30.0, y], [40.0, y + 0.25]]))
+                F.method(F.attr(sc, "lanelet_network"), "add_lanelet", F.new(Lanelet, *cv(7.0), 4))
             if self.custom:
                 F.method(sc, "add_objects", custom_states_obstacle(F))
             from commonroad.planning.planning_problem import PlanningProblemSet
